@@ -45,7 +45,9 @@ THasMore ==
 TStan ==
   /\ IsEvent("stan")
   /\ LET a == Ev.args IN
-     /\ Chk("stan_raises_iff_documented", Ev.raised = StanRaises(a))
+     \* through EngineBuilder.set_duration the schedule is also fed to an EpochManager, which rejects invalid ones
+     /\ Chk("stan_raises_iff_documented",
+            Ev.raised = (IF StanRaises(a) THEN TRUE ELSE Ev.via_builder /\ ~Valid(Stan(a))))
      /\ (IF Ev.raised THEN TRUE ELSE
           LET s == ToCfgs(Ev.out) IN
           /\ Chk("stan_output_is_spec_function", s = Stan(a))
